@@ -78,12 +78,26 @@ def compare_full(ctx, got, want, display, site, replay):
             return
 
 
+def before_plain(ctx, name, version, elements, data_dir):
+    """requests with options for a basis that this process has not composed yet (their results are judged by other properties;
+    here they are the history that must not change what the plain request returns afterwards)"""
+    bse = impl.bse()
+    kw = {} if data_dir is None else {'data_dir': data_dir}
+    if elements:
+        impl.call(bse.get_basis, name, version=version, elements=elements[:1], uncontract_segmented=True, **kw)
+    impl.call(bse.get_basis, name, version=version, uncontract_general=True, remove_free_primitives=True, fmt='nwchem', **kw)
+    ctx.dist['options-request-before-plain'] += 1
+
+
 def work_store(ctx, item):
     name, version = item
     md = store.metadata()
     entry = md[name]
     rel = entry['versions'][version]['file_relpath']
     files = datadir.chain_files(store.DATA, rel)
+    if ctx.rng.random() < 0.5 and isinstance(files.get(rel), dict):
+        # "whatever was asked before": the first request for this basis in this process is one with options
+        before_plain(ctx, name, version, list(files[rel].get('elements', {})), None)
     r = store.get_basis(name, version)
     nshared = sum(1 for k, v in files.items() if isinstance(v, dict) and v.get('molssi_bse_schema', {}).get('schema_type') == 'component')
     ctx.case((name, version), nshared >= 2, 'store')
@@ -123,7 +137,7 @@ def work_generated(ctx, seed):
     how = INCONSISTENT[seed % len(INCONSISTENT)]
     from basis_set_exchange import curate
     bse = impl.bse()
-    gd = datadir.GenDir(rng, inconsistent=how)
+    gd = datadir.GenDir(rng, inconsistent=how, repeat_shells=seed % 3 == 0)
     try:
         # the index: regenerated by the implementation when the directory is consistent, hand-made otherwise
         idx = impl.call(curate.create_metadata_file, os.path.join(gd.path, 'METADATA.json'), gd.path)
@@ -145,6 +159,9 @@ def work_generated(ctx, seed):
             ctx.sample({'generated_dir': sorted(files), 'inconsistent': how})
         for key, entry in index.items():
             for ver, vinfo in entry['versions'].items():
+                tbl = files.get(vinfo['file_relpath'])
+                if seed % 2 and isinstance(tbl, dict):
+                    before_plain(ctx, entry['display_name'], ver, list(tbl.get('elements', {})), gd.path)
                 r = impl.call(bse.get_basis, entry['display_name'], version=ver, data_dir=gd.path)
                 ctx.case((seed, key, ver), True, 'generated:' + (how or 'consistent'))
                 replay = {'kind': 'generated', 'seed': seed, 'name': entry['display_name'], 'version': ver, 'inconsistent': how}
@@ -170,7 +187,7 @@ def run(ctx):
     ctx.rule = ('every (name, version) of the index (quick: a stratified sample): get_basis with no options vs (a) the extracted model '
                 'of compose.py + api.get_basis fed with the raw JSON files of the chain, compared exactly (keys, order of elements, raw '
                 'strings), (b) an independent Python re-composition; plus generated data directories (shared components, ECP+orbital '
-                'mixes, several versions, sub-directories, shuffled table order) and four kinds of inconsistent directories that must be '
+                'mixes, several versions, sub-directories, shuffled table order, a shell repeated by two components of an element; half of the plain requests come after requests with options for the same basis) and four kinds of inconsistent directories that must be '
                 'refused. Non-trivial = the chain uses >= 2 component files / a generated directory')
     ctx.trusted.append('json.load and the file system are modelled as a finite map path -> parsed JSON (coq/Model/Compose.v)')
     md = store.metadata()
